@@ -9,6 +9,7 @@ func init() {
 			{Pkg: "reactive", Harness: "set", Config: "noreplace", Weight: 3, Note: "without Replace, so that everything else is explored in runs the Replace report defect would end"},
 			{Pkg: "reactive", Harness: "set", Weight: 2, Note: "full method mix incl. Replace"},
 			{Pkg: "reactive", Harness: "varutils", Weight: 1, Note: "subscription utilities built on OnUpdate: OnUpdateOnce, OnUpdateWithContext, WithValue, WithNonEmptyValue; ToggleValue, Read"},
+			{Pkg: "reactive", Harness: "varinit", Weight: 1, Note: "a variable without subscriptions is written through Init/Set while its first subscribers arrive: every subscriber is told a chain that ends with the final value"},
 			{Pkg: "reactive", Harness: "setutils", Weight: 1, Note: "Set.WithElements and the ReadOnly view"},
 			{Pkg: "reactive", Harness: "derivedset", Weight: 1, Note: "a subscriber of a DerivedSet (inherited mutations and direct writes) folds what it is told; shares its body with C14's derivedset harness"},
 		},
